@@ -8,7 +8,10 @@ Line-protocol driver for C10. One request = one batch:
   R = {"ok": [i…]} (join: [[i|null, i|null]…]) | {"err": class}
 answer {"res":[{"same":bool, "hyp":bool, "spec":bool|null, "model":dump (only when not same)} …]}.
 "same": model result = implementation result (join: as multisets of pairs — Python returns them in
-set-iteration order). "hyp": the distinct-keys hypothesis of the Spec predicate holds for the input. "spec": the Spec
+set-iteration order). addStatics / periodMerge: the model compared with the implementation is the literal loop
+(`addStaticsLit`, `periodMergeLit`); "direct": the direct form (`addStatics`, `periodMerge`, about
+which the theorems are stated; equal by `addStaticsLit_eq` / `periodMergeLit_eq`) gives the same.
+"hyp": the distinct-keys hypothesis of the Spec predicate holds for the input. "spec": the Spec
 predicate on the implementation's output (null: hypothesis false / implementation raised).
 -/
 import Bermuda.Model.Json
@@ -73,6 +76,12 @@ def answer {α} (toJ : α → Json) (eq : α → α → Bool) (model : Except Er
   if same then Json.mkObj [("same", true), ("hyp", hyp), ("spec", specJ)]
   else Json.mkObj [("same", false), ("hyp", hyp), ("spec", specJ), ("model", exceptToJson toJ model)]
 
+def exceptEq (x y : Except Err (List Cell)) : Bool :=
+  match x, y with
+  | .ok a, .ok b => a == b
+  | .error e, .error f => e == f
+  | _, _ => false
+
 def handleItem (tbl : Array Cell) (j : Json) : Except String Json := do
   let op ← (← j.getObjVal? "op").getStr?
   match op with
@@ -103,8 +112,11 @@ def handleItem (tbl : Array Cell) (j : Json) : Except String Json := do
     let b ← idxList tbl (← j.getObjVal? "b")
     let statics ← strList (← j.getObjVal? "statics")
     let impl ← implOf (idxList tbl) j
-    return answer cellsToJson (· == ·) (addStatics a b statics) impl (Spec.addStaticsHyp a b)
+    -- compared with the implementation: the LITERAL loop; "direct": the direct form agrees with it
+    let lit := addStaticsLit a b statics
+    let r := answer cellsToJson (· == ·) lit impl (Spec.addStaticsHyp a b)
       (Spec.addStaticsSpec a b statics)
+    return r.setObjVal! "direct" (Json.bool (exceptEq lit (addStatics a b statics)))
   | "periodMerge" =>
     let a ← idxList tbl (← j.getObjVal? "a")
     let b ← idxList tbl (← j.getObjVal? "b")
@@ -112,8 +124,10 @@ def handleItem (tbl : Array Cell) (j : Json) : Except String Json := do
       | .ok v => if v.isNull then pure none else (v.getStr?).map some
       | .error _ => pure none
     let impl ← implOf (idxList tbl) j
-    return answer cellsToJson (· == ·) (periodMerge a b suffix) impl (Spec.leftHyp a)
+    let lit := periodMergeLit a b suffix
+    let r := answer cellsToJson (· == ·) lit impl (Spec.leftHyp a)
       (Spec.periodMergeSpec a b suffix)
+    return r.setObjVal! "direct" (Json.bool (exceptEq lit (periodMerge a b suffix)))
   | o => throw s!"unknown op {o}"
 
 def handle (j : Json) : Except String Json := do
